@@ -1,5 +1,6 @@
 """C09 - clipped and subsetted datasets remain valid datasets with unchanged geometry."""
 import itertools
+import os
 import shutil
 import warnings
 
@@ -21,6 +22,90 @@ def explicit_geometry(f):
     if d.family in ('ugrid', 'shoc_standard'):
         return True
     return bool(d.spec.get('bounds'))
+
+
+def narrow_tables(ctx):
+    """meshes whose face-node table is stored in the narrowest integer type that holds its node numbers, some using every
+    positive value of the type (127 nodes one-based / 128 nodes zero-based as signed bytes) and some stored unsigned: clipped
+    to a region that keeps every face, and to one that keeps half, each selected face keeps exactly its polygon"""
+    import tempfile
+    import shutil
+    import shapely
+    tmp = tempfile.mkdtemp(prefix='c09_narrow_', dir=os.environ.get('VERIF_WORK', '/verif/work'))
+    try:
+        for nn, si, dt, fillv in [(127, 1, 'int8', -99), (128, 0, 'int8', -99), (100, 1, 'int8', -1), (127, 1, 'int16', -999),
+                                   (40, 1, 'uint8', 255), (41, 0, 'uint16', 65535)]:
+            # a strip of quadrilaterals on 2 (w + 1) nodes, closed by a triangle on one more node when nn is odd
+            w = (nn - (nn % 2)) // 2 - 1
+            nodes = [(float(i), 0.0) for i in range(w + 1)] + [(float(i), 1.0) for i in range(w + 1)]
+            faces = [[i, i + 1, w + 1 + i + 1, w + 1 + i] for i in range(w)]
+            if nn % 2:
+                nodes.append((w + 1.0, 0.5))
+                faces.append([w, 2 * w + 2, 2 * w + 1, None])
+            assert len(nodes) == nn
+            tab = numpy.array([[fillv if v is None else v + si for v in f] for f in faces]).astype(dt)
+            ds = xarray.Dataset({
+                'Mesh2': xarray.DataArray(numpy.int32(0), attrs={
+                    'cf_role': 'mesh_topology', 'topology_dimension': 2, 'node_coordinates': 'Mesh2_node_x Mesh2_node_y',
+                    'face_node_connectivity': 'Mesh2_face_nodes', 'face_dimension': 'nMesh2_face'}),
+                'Mesh2_node_x': xarray.DataArray([p[0] for p in nodes], dims=['nMesh2_node'],
+                                                 attrs={'standard_name': 'longitude', 'units': 'degrees_east'}),
+                'Mesh2_node_y': xarray.DataArray([p[1] for p in nodes], dims=['nMesh2_node'],
+                                                 attrs={'standard_name': 'latitude', 'units': 'degrees_north'}),
+                'Mesh2_face_nodes': xarray.DataArray(tab, dims=['nMesh2_face', 'nMaxMesh2_face_nodes'],
+                                                     attrs={'cf_role': 'face_node_connectivity', 'start_index': numpy.dtype(dt).type(si)}),
+                'depth': xarray.DataArray(numpy.arange(len(faces), dtype='f8') + 1, dims=['nMesh2_face']),
+            }, attrs={'Conventions': 'UGRID-1.0'})
+            src = os.path.join(tmp, f'narrow_{nn}_{si}_{dt}.nc')
+            enc = {v: {'_FillValue': None} for v in ds.variables}
+            enc['Mesh2_face_nodes'] = {'_FillValue': numpy.dtype(dt).type(fillv)}
+            label = f'strip mesh, {nn} nodes numbered from {si}, face-node table stored as {dt} (missing = {fillv})'
+            with warnings.catch_warnings():
+                warnings.simplefilter('ignore')
+                ds.to_netcdf(src, encoding=enc)
+                d = emsarray.open_dataset(src)
+                d.load()
+                want = attempt(lambda: pm.impl_polygons(d.ems))
+            if want[0] != 'ok':
+                ctx.report('property', f'polygons of the dataset failed: {want[1]}', {'dataset': label})
+                continue
+            for region, (x0, x1) in [('keeps every face', (-1.0, w + 3.0)), ('keeps the upper half', (w / 2 + 0.5, w + 3.0))]:
+                case = {'dataset': label, 'geometry': region, 'box': [x0, -1.0, x1, 2.0], 'buffer': 0}
+                ctx.case((label, region), True)
+                ctx.count(f'narrow_table:{dt}')
+                work = tempfile.mkdtemp(prefix='work_', dir=tmp)
+                g = shapely.box(x0, -1.0, x1, 2.0)
+                kept = [k for k, p_ in enumerate(want[1]) if shapely.Polygon(p_).intersects(g)]
+                with warnings.catch_warnings():
+                    warnings.simplefilter('ignore')
+                    r = attempt(lambda: d.ems.clip(g, work_dir=work))
+                    if r[0] == 'ok':
+                        out = r[1]
+                        r = attempt(lambda: (out.load(), pm.impl_polygons(out.ems))[1])
+                if r[0] != 'ok':
+                    ctx.report('property', f'clip failed: {r[1]}', case)
+                    continue
+                if r[1] != [want[1][k] for k in kept]:
+                    difs = [k for k, (a, b) in enumerate(zip(r[1], [want[1][k] for k in kept])) if a != b]
+                    ctx.report('property', f'{len(r[1])} polygons after the clip for {len(kept)} selected faces; selected face '
+                               f'{kept[difs[0]] if difs else None} has polygon {r[1][difs[0]] if difs else None}, originally '
+                               f'{want[1][kept[difs[0]]] if difs else None}', case)
+                    continue
+                saved = os.path.join(tmp, f'out_{nn}_{si}_{dt}_{len(kept)}.nc')
+                with warnings.catch_warnings():
+                    warnings.simplefilter('ignore')
+                    r = attempt(lambda: out.ems.to_netcdf(saved))
+                    if r[0] == 'ok':
+                        r = attempt(lambda: pm.impl_polygons(emsarray.open_dataset(saved).ems))
+                if r[0] != 'ok' or r[1] != [want[1][k] for k in kept]:
+                    ctx.report('property', f'saved and reopened, the clipped mesh does not have the polygons of the selected faces: '
+                               f'{r[1] if r[0] != "ok" else "polygons differ"}', case)
+                    continue
+                odt, oattrs, _ = cc.raw_var(saved, 'Mesh2_face_nodes')
+                if odt != dt or int(oattrs.get('start_index', 0)) != si:
+                    ctx.report('property', f'face-node table stored as {odt} with start_index {oattrs.get("start_index")} after the clip', case)
+    finally:
+        shutil.rmtree(tmp, ignore_errors=True)
 
 
 def run(ctx):
@@ -60,8 +145,10 @@ def run(ctx):
             elif r1[1][0] is not r0[1][0] or r1[1][1] != r0[1][1]:
                 ctx.report('property', f'select_variables({sub}): the subset is handled by {r1[1][0].__name__} and its polygons '
                            f'{"differ from" if r1[1][1] != r0[1][1] else "equal"} those of the dataset ({r0[1][0].__name__})', qcase)
+    narrow_tables(ctx)
     fl, tmp = cc.flows(ctx, 35 if quick else 140, quick)
     exprs, plans = [], []
+    fill_exprs, fill_plans = [], []
     try:
         for f in fl:
             case = f.case
@@ -205,6 +292,24 @@ def run(ctx):
                     if int(oattrs.get('start_index', 0)) != int(sattrs.get('start_index', 0)):
                         bad = f'{var}: start_index {oattrs.get("start_index")} after the clip, {sattrs.get("start_index")} before'
                         break
+                    # the value that stands for "no element" in the stored table: the all-nines value beyond every element
+                    # number of the input mesh, capped at what the stored type holds (model Fill); every stored entry is
+                    # the new number of its element offset by start_index, or that value
+                    if '_FillValue' in oattrs:
+                        si_ = int(oattrs.get('start_index', 0))
+                        ofill = oattrs['_FillValue']
+                        maxrep = ((int(numpy.iinfo(numpy.dtype(odt)).min), int(numpy.iinfo(numpy.dtype(odt)).max))
+                                  if numpy.dtype(odt).kind in 'iu' else None)
+                        fill_exprs.append(f'({"None" if maxrep is None else f"Some (({maxrep[0]}), {maxrep[1]})"}, sensible_fill '
+                                          f'{int(topo_in.node_count)} {int(topo_in.face_count)} {int(topo_in.max_node_count)})')
+                        fill_plans.append((dict(case, table=t, stored_as=odt), float(ofill), maxrep))
+                        ctx.count(f'stored fill:{odt}')
+                        rawv = numpy.asarray(oraw)
+                        real = rawv[rawv != ofill]
+                        if real.size and (real.min() - si_ < 0 or real.max() - si_ >= count):
+                            bad = (f'{var}: stored entries {sorted(set(real.tolist()))[:6]}.. (start_index {si_}, missing = {ofill}) name '
+                                   f'elements outside the {count} surviving {ck}s')
+                            break
                 if bad:
                     ctx.report('property', bad, case)
                     continue
@@ -257,6 +362,14 @@ def run(ctx):
                     break
         model = coq_eval_sharded(['Base.Index', 'Model.Mask', 'Model.Clip'], exprs, shard=6, workers=12)
         ctx.leg('updated_tables', len(exprs))
+        if fill_exprs:
+            mfill = coq_eval_sharded(['Model.Fill'], [f'(let p := {e} in match fst p with Some m => capped_fill (fst m) (snd m) (snd p) | None => snd p end)'
+                                                      for e in fill_exprs], shard=40, workers=4)
+            ctx.leg('stored_fill_values', len(fill_exprs))
+            for (fcase, ofill, maxrep), mv in zip(fill_plans, mfill):
+                if float(mv) != ofill:
+                    ctx.report('correspondence', f'the clipped table stores {ofill} for "no element"; model Fill gives {mv} '
+                               f'(smallest and largest value of the stored type: {maxrep})', fcase, found_input=False)
         for (case, obs), mres in zip(plans, model):
             if obs != mres:
                 ctx.report('correspondence', f'model Clip.update_conn {mres} differs from the clipped connectivity {obs}', case,
